@@ -4,7 +4,7 @@ package libinjection
 
 // T layer for SQLi (C03, C10, C14, also C08/C12 on long inputs): attack templates with symbolic holes.
 // Template syntax: {word} = keyword with the case of every letter free; ~ = separator (shape chosen by the job);
-// _ = SQL whitespace byte other than newline; # = any decimal digit; ? = any lower-case letter; everything else literal.
+// ^ = SQL whitespace byte other than newline; # = any decimal digit; ? = any lower-case letter; everything else literal.
 
 // vSep: separator shapes. 0: one SQL whitespace byte (any of the 8, incl. NUL and 0xA0), 1: two of them,
 // 2: "/**/", 3: "/*" letter "*/", 4: one of the 6 ASCII whitespace bytes (for places where NUL / 0xA0 are not separators)
@@ -38,7 +38,7 @@ func vExpand(t string, sep int) string {
 			i = j
 		case '~':
 			out += vSep(sep)
-		case '_':
+		case '^':
 			// whitespace inside a trailing line comment: any SQL whitespace byte except the newline that would end the comment
 			out += vB(vByteIn(" \t\v\f\r\xa0\x00"))
 		case '#':
@@ -56,7 +56,7 @@ var vSqlCtx = [...]string{"#", "#'", "#\"", "#)", "#')", "#\")", "?'", "#'))", "
 
 const vNumSqlCtx = 10
 
-var vSqlTails = [...]string{"", "~--", "~--_?", "~#", "~/*", ";", "~--_", ";--", "~-- -"}
+var vSqlTails = [...]string{"", "~--", "~--^?", "~#", "~/*", ";", "~--^", ";--", "~-- -"}
 
 const vNumSqlTails = 9
 
@@ -94,11 +94,11 @@ func HSqlAttack(ctx int, atk int, sep int, tail int) {
 // near-benign inputs that reach the whitelist rules (token-count dependent exemptions, quote-context readings,
 // MySQL re-parse): the interesting region for "each reading is independent of the readings tried before it".
 var vSqlNear = [...]string{
-	"?'~{and}~?", "#'~{or}~#", "?\"~{and}~#", "#~{union}", "#'~{union}", "?~--_?", "#~{and}~#", "?'~{and}~?~--", "#'~&&~#", "?'~||~?",
+	"?'~{and}~?", "#'~{or}~#", "?\"~{and}~#", "#~{union}", "#'~{union}", "?~--^?", "#~{and}~#", "?'~{and}~?~--", "#'~&&~#", "?'~||~?",
 	"#~--", "#--", "#~#", "?'~--", "#'~#~?", "#\"~{or}~'?'", "?'~{and}~@?", "#'~{and}~#~#", "#'--", "?'#", "#;~?", "{select}~?~{from}~?",
-	"?'~{or}~?'", "#'~{and}~'#", "?\"~{or}~\"?", "#'~{xor}~#", "#~{or}~#", "?~{and}~#<#", "#'~{and}~#<#", "'~{or}~'", "\"~{and}~\"", "#'~{or}~#~--_?#",
+	"?'~{or}~?'", "#'~{and}~'#", "?\"~{or}~\"?", "#'~{xor}~#", "#~{or}~#", "?~{and}~#<#", "#'~{and}~#<#", "'~{or}~'", "\"~{and}~\"", "#'~{or}~#~--^?#",
 	"#'\"~{and}~#", "?'?\"~{or}~#=#~--", "?'?\"~{union}~{select}~#,#~--", "\"?'~{or}~#=#", "'~&&~?", "?'~{and}~-?", "?\"~{or}~~?", "'~{or}~?",
-	"?~?~--_sp_password", "?~?~?~--sp_password", "#~?~/*sp_password*/", "?'~?~--_sp_password", "?~--_{sp_password}", "#~?~#~?~#~--_sp_password",
+	"?~?~--^sp_password", "?~?~?~--sp_password", "#~?~/*sp_password*/", "?'~?~--^sp_password", "?~--^{sp_password}", "#~?~#~?~#~--^sp_password",
 }
 
 const vNumSqlNear = 46
@@ -190,7 +190,7 @@ func HSqlCaseT(ctx int, atk int, tail int) {
 	for i := 0; i < len(t); i++ {
 		c := t[i]
 		switch c {
-		case '~', '_':
+		case '~', '^':
 			base += " "
 		case '#':
 			base += "1"
@@ -310,4 +310,18 @@ func HVirtualQuoteT(i int, sep int, q int, mysql int) {
 		vAssert(ok1 == ok2, "verdict inside quote equals verdict of quote+input as-is")
 	}
 	vCover("checked")
+}
+
+// HSqlAttackTotal (C01): the attack and near-benign templates with one extra free byte at the end, no assertion beyond
+// the engine's implicit ones (index/slice/nil/division/step budget): long token sequences through fold and the whitelist.
+func HSqlAttackTotal(ctx int, atk int, sep int, tail int) {
+	s := vExpand(vSqlCtx[ctx]+vSqlAttacks[atk]+vSqlTails[tail], sep) + vNondetString(1)
+	IsSQLi(s)
+	vCover("done")
+}
+
+func HSqlNearTotal(i int, sep int) {
+	s := vExpand(vSqlNear[i], sep) + vNondetString(1)
+	IsSQLi(s)
+	vCover("done")
 }
